@@ -173,5 +173,4 @@ def run(rep: common.Report, tier: str, seed: int):
 
 
 def replay(data):
-    print('replay: rerun bin/check C05 quick with VERIF_SEED=%s' % data.get('seed'))
-    return 1
+    return common.replay_by_rerun('C05', data, run)
